@@ -397,6 +397,10 @@ struct Fault {
     /// send one byte per write(2) (TCP_NODELAY is set)
     #[serde(default)]
     drip: bool,
+    /// known-finding class K18: the request is malformed ONLY in the framing
+    /// of its chunked body and goes to an endpoint that does not read the body
+    #[serde(default)]
+    unread_bad_body: bool,
 }
 
 #[derive(Serialize, Deserialize, Clone, Debug)]
@@ -808,6 +812,7 @@ fn fault(kind: &str, server: usize, bytes: &[u8]) -> Fault {
         h2: false,
         script: None,
         drip: false,
+        unread_bad_body: false,
     }
 }
 /// a request whose fate the generator knows
@@ -1257,7 +1262,6 @@ fn gen_catalogue(out: &mut Vec<Case>) {
         u("cat/header-value-high-bytes", b"GET /health HTTP/1.1\r\nHost: localhost\r\nX-A: caf\xe9 \xff\x80\r\n\r\n".to_vec());
         u("cat/empty-header-value", b"GET /health HTTP/1.1\r\nHost: localhost\r\nX-Empty:\r\n\r\n".to_vec());
         u("cat/get-with-body", b"GET /health HTTP/1.1\r\nHost: localhost\r\nContent-Length: 5\r\n\r\nhello".to_vec());
-        u("cat/get-bad-chunked-body", b"GET /health HTTP/1.1\r\nHost: localhost\r\nTransfer-Encoding: chunked\r\n\r\nzz\r\nhello\r\n0\r\n\r\n".to_vec());
         u("cat/te-not-chunked", b"POST /raw HTTP/1.1\r\nHost: localhost\r\nTransfer-Encoding: gzip\r\n\r\nhello".to_vec());
         u("cat/te-chunked-twice", b"POST /raw HTTP/1.1\r\nHost: localhost\r\nTransfer-Encoding: chunked, chunked\r\n\r\n5\r\nhello\r\n0\r\n\r\n".to_vec());
         u("cat/cl-and-te", b"POST /raw HTTP/1.1\r\nHost: localhost\r\nContent-Length: 3\r\nTransfer-Encoding: chunked\r\n\r\n5\r\nhello\r\n0\r\n\r\n".to_vec());
@@ -1323,6 +1327,19 @@ fn gen_catalogue(out: &mut Vec<Case>) {
             v.extend_from_slice(&tail);
             let mut f = fault(kind, sv, &v);
             f.h2 = true;
+            out.push(Case::Fault(f));
+        }
+
+        // ----- known-finding class K18: invalid chunked framing of a body
+        // that the endpoint never reads (malformed by construction: the
+        // chunk-size line is not 1*HEXDIG)
+        for (kind, bytes) in [
+            ("cat/get-bad-chunked-body", &b"GET /health HTTP/1.1\r\nHost: localhost\r\nTransfer-Encoding: chunked\r\n\r\nzz\r\nhello\r\n0\r\n\r\n"[..]),
+            ("cat/get-echo-bad-chunked-body", &b"GET /echo/abc?n=1 HTTP/1.1\r\nHost: localhost\r\nTransfer-Encoding: chunked\r\n\r\n-5\r\nhello\r\n0\r\n\r\n"[..]),
+            ("cat/put-nocontent-bad-chunked-body", &b"PUT /nocontent HTTP/1.1\r\nHost: localhost\r\nTransfer-Encoding: chunked\r\n\r\n5 5\r\nhello\r\n0\r\n\r\n"[..]),
+        ] {
+            let mut f = mal(fault(kind, sv, bytes));
+            f.unread_bad_body = true;
             out.push(Case::Fault(f));
         }
 
@@ -1677,10 +1694,11 @@ fn g_fault(f: &Fault, ans: &[u8], end: End) -> String {
         Some(s) => format!("(Some {})", g_list(s, g_areq)),
     };
     format!(
-        "(F {} {} {} {} {} {} {})",
+        "(F {} {} {} {} {} {} {} {})",
         g_bool(f.malformed),
         g_bool(f.head),
         g_bool(f.h2),
+        g_bool(f.unread_bad_body),
         script,
         mode_of(f.server),
         g_bytes(ans),
@@ -1715,6 +1733,9 @@ fn summarize(f: &Fault, ans: &[u8], end: End) -> (Value, Vec<String>) {
     }
     if f.script.is_some() {
         tags.push("known-script".to_string());
+    }
+    if f.unread_bad_body {
+        tags.push("class-K18-candidate".to_string());
     }
     for s in &sts {
         tags.push(format!("status:{}", s));
@@ -1932,6 +1953,7 @@ fn run_case(c: &Case, addrs: &[SocketAddr], accept_errors: &[Arc<AtomicUsize>]) 
                 h2: false,
                 script: None,
                 drip: false,
+                unread_bad_body: false,
             };
             let (ans, end) = run_fault(&f, addrs[TLS]);
             let (alive, probe) = tls_alive(addrs[TLS]);
